@@ -105,7 +105,7 @@ struct Layout {
     class: bool,    // class written
     rel_data: bool, // names in record data relative
     sep: u8,        // 0 space, 1 tab, 2 three blanks
-    wrap: u8,       // 0 none, 1 trailing comment, 2 data in parentheses on one line, 3 parenthesised continuation lines with comments, 4 glued parentheses around the data, 5 parentheses opening directly behind the owner
+    wrap: u8,       // 0 none, 1 trailing comment, 2 data in parentheses on one line, 3 parenthesised continuation lines with comments, 4 glued parentheses around the data, 5 parentheses opening directly behind the owner, 6 nested parentheses over several lines
     esc: u8,        // 0 plain, 1 decimal escape in owner names, 2 character escape in owner names
     gaps: u8,       // 0 none, 1 blank and comment lines between entries, 2 CRLF
 }
@@ -181,6 +181,16 @@ fn render(l: Layout) -> (String, Option<&'static str>) {
             0 => { line += sep; line += &data.join(sep); }
             1 => { line += sep; line += &data.join(sep); line += " ; trailing ( comment"; }
             2 => { line += sep; line += "( "; line += &data.join(sep); line += " )"; }
+            6 => {
+                // nested parentheses (the library's own multi-line writer nests blocks): the first token in the outer
+                // pair, the rest in an inner one
+                line += sep;
+                line += "( ";
+                line += &data[0];
+                line += &format!(" ({nl}{sep}");
+                line += &data[1..].join(sep);
+                line += &format!("{nl}{sep}) )");
+            }
             3 => {
                 line += sep;
                 line += "(";
@@ -225,7 +235,7 @@ fn main() {
     }
     let mut n = 0u64;
     for owner in 0..4u8 { for ttl in 0..3u8 { for ttl_first in [true, false] { for class in [true, false] { for rel_data in [false, true] {
-    for sep in 0..3u8 { for wrap in 0..6u8 { for esc in 0..3u8 { for gaps in 0..3u8 {
+    for sep in 0..3u8 { for wrap in 0..7u8 { for esc in 0..3u8 { for gaps in 0..3u8 {
         let l = Layout { owner, ttl, ttl_first, class, rel_data, sep, wrap, esc, gaps };
         let (text, o) = render(l);
         n += 1;
